@@ -36,6 +36,8 @@ pub enum SOp {
     SetLangs(Vec<u16>),
     Codepage(u16),
     Reopen(u8),
+    /// save with flush() and keep working on the same package object
+    Flush,
 }
 
 #[derive(Clone, Debug, Serialize, Deserialize, Hash, PartialEq, Eq)]
@@ -363,6 +365,14 @@ pub fn check_case(case: &SCase, st: &mut Stats) -> Check {
                 }
                 st.class(&format!("page:{}", page.id));
             }
+            SOp::Flush => {
+                trace.push("flush (the session goes on)".into());
+                let t = trace.join("; ");
+                pkg.flush().map_err(|e| Fail::new(format!("{P} unexpected-error op=Flush"), format!("{e}; history: {t}")))?;
+                check_stream(&buf.bytes(), &m, &t)?;
+                check_getters(&pkg, &m, "after-flush", false, &t)?;
+                st.class("flush-and-go-on");
+            }
             SOp::Reopen(mode) => {
                 trace.push(format!("reopen({})", mode % 3));
                 let t = trace.join("; ");
@@ -425,6 +435,7 @@ fn sop() -> impl Strategy<Value = SOp> {
         2 => prop::collection::vec(prop_oneof![Just(1033u16), Just(0), Just(65535), any::<u16>()], 0..4).prop_map(SOp::SetLangs),
         5 => prop_oneof![3 => any::<u16>(), 1 => Just(u16::MAX)].prop_map(SOp::Codepage),
         3 => any::<u8>().prop_map(SOp::Reopen),
+        3 => Just(SOp::Flush),
     ]
 }
 
